@@ -19,7 +19,7 @@
 use grep_matcher::{LineMatchKind, Matcher};
 use grep_regex::RegexMatcherBuilder;
 
-const TOKENS: &[&str] = &["a", "b", ".", "[ab]", "(a|b)", "^", "$", r"\A", r"\z", r"\b", "?", "*", "+", "{0,2}", "|", " ", r"\s"];
+const TOKENS: &[&str] = &["a", "b", ".", "[ab]", "(a|b)", "^", "$", r"\A", r"\z", r"\b", "?", "*", "+", "{0,2}", "|", " ", r"\s", r"\p{Lu}"];
 const ALPHA: &[u8] = b"abA \n";
 
 fn words(max: usize) -> Vec<String> {
@@ -135,15 +135,38 @@ fn oracle(pattern: &str, opt: u32) -> Option<regex::bytes::Regex> {
     };
     // -S (documented): case-insensitive iff no literal of the pattern is uppercase; literals are the pattern's
     // characters outside escape sequences (class members and range ends included)
-    let smart_insensitive = opt == 4 && !has_uppercase_literal(pattern);
+    let smart_insensitive = opt == 4 && has_literal(pattern) && !has_uppercase_literal(pattern);
     regex::bytes::RegexBuilder::new(&p).multi_line(true).unicode(true).case_insensitive(opt == 1 || smart_insensitive).build().ok()
+}
+
+/// "the pattern contains at least one literal character" (`\\w` or `\\pL` are not literals; class members are)
+fn has_literal(pattern: &str) -> bool {
+    let b = pattern.as_bytes();
+    let mut i = 0;
+    while i < b.len() {
+        if b[i] == b'\\' {
+            // \\p{..} / \\P{..}
+            if i + 2 < b.len() && (b[i + 1] == b'p' || b[i + 1] == b'P') && b[i + 2] == b'{' {
+                while i < b.len() && b[i] != b'}' { i += 1; }
+                i += 1;
+            } else { i += 2; }
+            continue;
+        }
+        if b[i] == b'{' { while i < b.len() && b[i] != b'}' { i += 1; } i += 1; continue; } // {0,2}, {12}
+        if b[i].is_ascii_alphanumeric() || b[i] == b' ' { return true; }
+        i += 1;
+    }
+    false
 }
 
 fn has_uppercase_literal(pattern: &str) -> bool {
     let b = pattern.as_bytes();
     let mut i = 0;
     while i < b.len() {
-        if b[i] == b'\\' { i += 2; continue; }
+        if b[i] == b'\\' {
+            if i + 2 < b.len() && (b[i + 1] == b'p' || b[i + 1] == b'P') && b[i + 2] == b'{' { while i < b.len() && b[i] != b'}' { i += 1; } i += 1; } else { i += 2; }
+            continue;
+        }
         if b[i].is_ascii_uppercase() { return true; }
         i += 1;
     }
